@@ -536,7 +536,10 @@ static std::string addr_text(const AddrSpec &s, const int64_t *sp, bool *compres
   if (s.fam == 2) return s.b;
   std::string ip = s.fam == 0 ? text_v4((const uint8_t *)s.b.data())
                               : text_v6((const uint8_t *)s.b.data(), sp[0], sp[1], (uint64_t)sp[2], (uint64_t)sp[3], sp[4] != 0, compressed);
-  return "[" + ip + "]:" + std::to_string(s.port);
+  // the port is parsed in base 10 with any number of leading zeros: one spelling in four pads it (sp[3] doubles as the selector)
+  std::string port = std::to_string(s.port);
+  if ((sp[3] & 3) == 1) port = std::string(1 + (size_t)((sp[3] >> 2) & 3), '0') + port;
+  return "[" + ip + "]:" + port;
 }
 // Does the library address denote the abstract one?  Empty string = yes, else a description.
 static std::string denotes(const void *sa, const AddrSpec &s) {
